@@ -5,11 +5,12 @@ from checks.conc import ASSUME_B
 
 CLAUSE_PROP = {"Registry": "C06", "Missing": "C06", "NotSubscribed": "C06", "Twice": "C06", "DupSubs": "C06", "GetUnknown": "C06",
                "Unstable": "C08", "OutOfTurn": "C08", "TwoThreads": "C13", "IsAlive": "C13", "StopLeft": "C13", "StartFailed": "C13", "Hang": "C13",
-               "NoProgress": "C13", "Error": "C13"}
+               "NoProgress": "C13", "Error": "C13", "NotSingle": "C30"}
 PROFILES = {
   "C06": {"weights": [40, 40, 6, 4, 3, 3], "min_ops": 5, "max_ops": 12, "resub": 0.2},
   "C08": {"weights": [15, 70, 5, 3, 1, 2], "min_ops": 6, "max_ops": 14, "prios": [1, 1, 1, 2, 2, 3], "max_pub2": 4, "long_lived": 0.3},
   "C13": {"weights": [15, 20, 25, 20, 8, 12], "min_ops": 5, "max_ops": 12, "bad": 6},
+  "C30": {"weights": [10, 15, 25, 25, 8, 17], "min_ops": 6, "max_ops": 12},
 }
 
 
